@@ -1,6 +1,7 @@
 package props
 
 import (
+	"fmt"
 	"strings"
 
 	"github.com/openziti/storage/ast"
@@ -282,7 +283,7 @@ func init() {
 		ID:    "C12",
 		Level: "exploration",
 		Rule: "all boolean skeletons with up to 3 (quick) / 4 (thorough) distinct atoms, plus seeded random skeletons with up to 5 / 6 atoms: every and/or chain, every placement of parentheses (incl. redundant ones) and of `not (...)`, nesting depth 2; each is rendered (canonical spelling and 3 re-spellings with random keyword case, " +
-			"whitespace at WS positions only, redundant parentheses), parsed, and its full truth table over all 2^N assignments (atoms are bool symbols; in a second pass typed comparisons; in a third pass a rotation of 13 operation kinds: in / between / not in / not between / contains / null test / isEmpty / count and anyOf / allOf over sets whose elements lie partly inside and partly outside the list or range) is compared with the table computed from the structure with and > or. " +
+			"whitespace at WS positions only, redundant parentheses), parsed, and its full truth table over all 2^N assignments (atoms are bool symbols; in a second pass typed comparisons; in a third pass a rotation of 13 operation kinds: in / between / not in / not between / contains / null test / isEmpty / count and anyOf / allOf over sets whose elements lie partly inside and partly outside the list or range; in a fourth pass every atom is an isEmpty / count sub-query over the same linked set with its own inner predicate) is compared with the table computed from the structure with and > or. " +
 			"Then typed query templates (every operator incl. not in / not between / not contains / not icontains, set functions, lists) are re-spelled and their results over random rows must not change. non-trivial = distinct skeletons mixing and/or or containing not/parentheses",
 		Assumptions: []string{"bare `not` next to and/or (without parentheses) is not generated: the statement fixes only not (P)"},
 		Exhaustive:  func(core.Tier) bool { return true },
@@ -296,6 +297,7 @@ func init() {
 			for _, k := range c12Kinds {
 				kinds = append(kinds, k.name)
 			}
+			kinds = append(kinds, "sub-queries: isEmpty", "sub-queries: count", "sub-queries: mixed")
 			return map[string][]string{"atom_kind": kinds, "shape": {"and-then-or"}}
 		},
 	})
@@ -317,6 +319,11 @@ func runC12(c *core.Ctx, idx int) {
 		tbl.Sets[c12Sym("ns", i)] = true
 		tbl.Types[c12Sym("st", i)] = ast.NodeTypeString
 	}
+	linked := memsym.NewTable()
+	linked.Types["rank"] = ast.NodeTypeInt64
+	tbl.Types["ls"] = ast.NodeTypeString
+	tbl.Sets["ls"] = true
+	tbl.Linked["ls"] = linked
 	tbl.Types["s"] = ast.NodeTypeString
 	tbl.Types["f"] = ast.NodeTypeFloat64
 	tbl.Types["tags"] = ast.NodeTypeString
@@ -343,11 +350,27 @@ func runC12(c *core.Ctx, idx int) {
 		return ql.Cmp(ql.Stream{ql.T(c12Sym("n", i))}, "=", ql.Stream{ql.T("1")})
 	}
 	variant := 0
+	// fourth pass: every atom is a sub-query over the SAME linked set with its own inner predicate
+	atomSub := func(i int) ql.Stream {
+		inner := ql.Cmp(ql.Stream{ql.T("rank")}, "=", ql.Stream{ql.T(fmt.Sprint(i + 1))})
+		sub := ql.Cat(ql.Stream{ql.K("from"), ql.G(ql.Req), ql.T("ls"), ql.G(ql.Req), ql.K("where"), ql.G(ql.Req)}, inner)
+		form := variant % 3
+		if form == 2 {
+			form = i % 2
+		}
+		if form == 0 {
+			return ql.Func("isEmpty", sub) // true when no linked row has this rank
+		}
+		return ql.Cmp(ql.Func("count", sub), ">", ql.Stream{ql.T("0")}) // true when one has
+	}
 	atomMixed := func(i int) ql.Stream { return c12Kinds[(i+variant)%len(c12Kinds)].text(i) }
 	for ski, sk := range batch {
 		n := countAtoms(sk)
 		variant = idx + ski
-		for pass, atom := range []func(int) ql.Stream{atomBool, atomCmp, atomMixed} {
+		for pass, atom := range []func(int) ql.Stream{atomBool, atomCmp, atomMixed, atomSub} {
+			if pass == 3 {
+				c.Cover("atom_kind", []string{"sub-queries: isEmpty", "sub-queries: count", "sub-queries: mixed"}[variant%3])
+			}
 			if pass == 2 {
 				for i := 0; i < n; i++ {
 					c.Cover("atom_kind", c12Kinds[(i+variant)%len(c12Kinds)].name)
@@ -372,7 +395,18 @@ func runC12(c *core.Ctx, idx int) {
 					row := memsym.NewRow(tbl)
 					for i := 0; i < n; i++ {
 						asg[i] = m&(1<<i) != 0
-						if pass == 2 {
+						if pass == 3 {
+							form := variant % 3
+							if form == 2 {
+								form = i % 2
+							}
+							if asg[i] == (form == 1) { // a linked row of this rank exists
+								lr := memsym.NewRow(linked)
+								lr.Vals["rank"] = int64(i + 1)
+								row.LinkedRows["ls"] = append(row.LinkedRows["ls"], lr)
+								row.SetVals["ls"] = append(row.SetVals["ls"], fmt.Sprintf("l%d", i))
+							}
+						} else if pass == 2 {
 							c12Kinds[(i+variant)%len(c12Kinds)].set(row, i, asg[i])
 						} else if pass == 0 {
 							row.Vals[c12Sym("p", i)] = asg[i]
